@@ -16,8 +16,7 @@
        (bit-independent power of sqrt 2, unit phase).
 
    The check is evaluated by the harness on every circuit of the model comparison (coverage is reported in the evidence), and
-   `elab_example_ok` below shows a circuit with every instruction family inside it.  Not covered (elab returns None):
-   explicit non-positive flip probabilities, noisy MPP. *)
+   `elab_example_ok` below shows a circuit with every instruction family inside it.  Every instruction the parse model reads is covered. *)
 From Coq Require Import ZArith QArith Qcanon List Bool String Ring.
 Import ListNotations.
 Require Import TV.Base.EP TV.Base.Amp TV.Model.Lane TV.gen.Gen_instructions TV.Model.GateCheck TV.Model.InstrCheck TV.Model.Parse
@@ -155,7 +154,7 @@ Definition elab_chunk (name fn : string) (args : list Q) (nmeas : nat) (chunk : 
       | Some _ =>                                     (* M MX MY MR MRX MRY: `!q` inverts the reported bit; an argument is the flip probability *)
           match args with
           | [] => Some [CM fn inv q]
-          | [p] => if noisy_p p then Some [CMp fn p inv q] else None
+          | [p] => if noisy_p p then Some [CMp fn p inv q] else Some [CM fn inv q]      (* M(0) q: no flip *)
           | _ => None
           end
       | None =>
@@ -204,6 +203,9 @@ Definition elab_instr (aux nmeas : nat) (i : instr) : option (list cinstr) :=
   else if String.eqb name "MPP" then
     match iargs i, mpp_products_of (itargets i) [] false with
     | [], Some prods => Some (flat_map (fun pr => mpp_circuit aux (fst pr) (snd pr)) prods)
+    | [p], Some prods =>                              (* MPP(p): the measurement of the auxiliary qubit is the noisy one *)
+        Some (flat_map (fun pr => removelast (mpp_circuit aux (fst pr) (snd pr))
+                                  ++ [if noisy_p p then CMp "m" p (snd pr) aux else CM "m" (snd pr) aux]) prods)
     | _, _ => None
     end
   else if String.eqb name "E" || String.eqb name "ELSE_CORRELATED_ERROR" then        (* one element of a correlated-error chain *)
@@ -317,6 +319,8 @@ Definition elab_example : list instr :=
     mkI "PAULI_CHANNEL_1" [1 # 8; 1 # 16; 1 # 32] TagNone [TQ 2 false];
     mkI "DEPOLARIZE2" [1 # 8] TagNone [TQ 0 false; TQ 1 false];
     mkI "MPP" [] TagNone [TPauli PX 0 false; TComb; TPauli PZ 1 true; TPauli PY 2 false];
+    mkI "MPP" [1 # 32] TagNone [TPauli PZ 0 true; TPauli PY 1 false; TComb; TPauli PY 2 false];
+    mkI "MX" [0 # 1] TagNone [TQ 1 false];
     mkI "E" [1 # 4] TagNone [TPauli PX 0 false; TPauli PY 2 false];
     mkI "ELSE_CORRELATED_ERROR" [1 # 2] TagNone [TPauli PZ 1 false];
     mkI "Z_ERROR" [1 # 8] TagNone [TQ 0 false];
